@@ -1488,7 +1488,7 @@ write_gvar_data(Relocation *cur, Initializer *init, Type *ty, char *buf, int off
 
         char *loc = buf + offset + mem->offset;
         uint64_t oldval = read_buf(loc, mem->ty->size);
-        uint64_t newval = eval(expr);
+        uint64_t newval = eval(new_cast(expr, mem->ty));
         uint64_t mask = (mem->bit_width == 64) ? ~0UL : (1UL << mem->bit_width) - 1;
         uint64_t combined = oldval | ((newval & mask) << mem->bit_offset);
         write_buf(loc, combined, mem->ty->size);
@@ -1525,11 +1525,10 @@ write_gvar_data(Relocation *cur, Initializer *init, Type *ty, char *buf, int off
     return cur;
   }
 
+  // The initializer is converted to the type of the object as if by
+  // assignment (C11 6.7.9p11).
   char **label = NULL;
-  uint64_t val = eval2(init->expr, &label);
-
-  if (!label && ty->kind == TY_BOOL)
-    val = is_flonum(init->expr->ty) ? (eval_double(init->expr) != 0) : (val != 0);
+  uint64_t val = eval2(new_cast(init->expr, ty), &label);
 
   if (!label) {
     write_buf(buf + offset, val, ty->size);
@@ -2018,8 +2017,14 @@ static int64_t eval3(Node *node, char ***label) {
     if (node->ty->kind == TY_LONG && node->ty->is_unsigned && is_flonum(node->lhs->ty))
       return (uint64_t)eval_double(node->lhs);
     int64_t val = eval2(node->lhs, label);
-    if (node->ty->kind == TY_BOOL)
+    if (node->ty->kind == TY_BOOL) {
+      // The address of an object or function is never null.
+      if (label && *label) {
+        *label = NULL;
+        return 1;
+      }
       return val != 0;
+    }
     if (is_integer(node->ty)) {
       switch (node->ty->size) {
       case 1: return node->ty->is_unsigned ? (uint8_t)val : (int8_t)val;
